@@ -1,6 +1,7 @@
 package props
 
 import (
+	"regexp"
 	"encoding/json"
 	"fmt"
 	"strings"
@@ -239,8 +240,14 @@ var c03WS = []string{" ", "\t", "\n", "\r", "  ", " \t\n", "\r\n", ""}
 // c03NeedsSep: in the expressions generated here "and", "or", "div" and "mod" only occur as operators, and an
 // operator name needs no blank before an opening parenthesis (XPath 1.0 section 3.7: after an operand an
 // NCName is an operator name, whatever follows it).
+var c03NumTok = regexp.MustCompile(`^([0-9]+(\.[0-9]*)?|\.[0-9]+)$`)
+
 func c03NeedsSep(a, b string) bool {
 	if b == "(" && (a == "and" || a == "or" || a == "div" || a == "mod") {
+		return false
+	}
+	// a number ends where its digits end: an operator name may follow it directly (6div 2, 1=1and 2=2)
+	if (b == "and" || b == "or" || b == "div" || b == "mod") && c03NumTok.MatchString(a) {
 		return false
 	}
 	return xp.NeedsSeparator(a, b)
